@@ -501,7 +501,7 @@ func TestC18AgentRound(t *testing.T) {
 	defer vt.Watch("TestC18AgentRound", 120*time.Second)()
 	rec := vt.For("C18")
 	rec.Rule("real agent.Agent with a recording node and a scripted pool, 1-4 keep-alive rounds (the first inside Start): generated local peer sets (id-only and enode forms; IPv4, IPv6, DNS, loopback, unspecified, localhost addresses with ports), pool replies (active list as enode URIs under the same host / another host / the same host with another port; invalid list as bare ids or enode URIs, also for peers that are not local), strict peering on/off, target 0-6, light/full node of kind geth/parity, update failure, peer-request failures (no hosts, other RPC error, transport error), offered hosts; oracle (round model): un-trusted set == disconnected set == pool-invalid ids + (strict: local peers not listed active under the same host; ports ignored; loopback/unspecified/localhost on either side is a don't-care); Peer requested iff shortfall>0 with num == shortfall and kind == own kind for light clients else \"\"; ConnectPeer exactly for the offered URIs; a failed keep-alive call touches nothing; non-trivial = a round with a required removal and a shortfall; distinct by config + rounds")
-	rapid.Check(t, func(rt *rapid.T) {
+	check(t, func(rt *rapid.T) {
 		rapid.SyncTest(rt, func(rt *rapid.T) { c18Case(rt, rec, false) })
 	})
 }
@@ -514,7 +514,7 @@ func TestC18AgentRound(t *testing.T) {
 func TestC18AgentRoundRPCNode(t *testing.T) {
 	rec := vt.For("C18")
 	rec.Rule("same round model with the node behind go-ethereum's in-process RPC server and the repository's geth / parity node adapters (admin_peers, admin_addPeer/removePeer/addTrustedPeer/removeTrustedPeer, parity_netPeers with an inactive peer to be filtered, parity_addReservedPeer/removeReservedPeer); the oracle compares the node ids extracted from the recorded RPC arguments")
-	rapid.Check(t, func(rt *rapid.T) { c18Case(rt, rec, true) })
+	check(t, func(rt *rapid.T) { c18Case(rt, rec, true) })
 }
 
 // ScriptPoolRPC exposes a scriptPool under the pool's RPC signatures (the signature parameters are not checked).
